@@ -71,12 +71,12 @@ def baggage_runs(ctx):
     # (the exhaustive depth-3 run is independent of everything else: it runs beside the generation runs)
     pool, f3 = None, None
     if thorough:
-        c3 = _cfg(ctx, "ops3.cfg", False, "ops", 3, True, 1, INVS, P)
+        c3 = _cfg(ctx, "ops3.cfg", False, "ops", 3, False, 1, INVS, P)
         pool = cf.ThreadPoolExecutor(max_workers=1)
         f3 = pool.submit(tlc.tlc, "Baggage", c3, rundir=ctx.rundir.path, workers=4, timeout_s=900, coverage=True, tag="ops3")
     c = _cfg(ctx, "ops2.cfg", True, "ops", 2, True, 1, INVS + " EmitAll", P)
     r = tlc.tlc("Baggage", c, rundir=ctx.rundir.path, workers=1, timeout_s=300, tag="ops2")
-    ctx.add_tlc("Baggage histories: all behaviours of 2 operations on any object, 6 keys x 8 values (checked + exported)", r)
+    ctx.add_tlc("Baggage histories: all behaviours of 2 operations on any object, 8 keys x 8 values (checked + exported)", r)
     tlc.must_ok(r, "Baggage history generation")
     b = _uniq(r, "ops2")
     counts["ops2"] = len(b)
@@ -139,7 +139,7 @@ def baggage_runs(ctx):
     if f3 is not None:
         r = f3.result()
         pool.shutdown()
-        ctx.add_tlc("Baggage histories: <= 3 operations on any object, 6 keys x 8 values", r)
+        ctx.add_tlc("Baggage histories: <= 3 operations on the newest object, 8 keys x 8 values", r)
         if r.status != "timeout":
             tlc.must_ok(r, "Baggage history model checking")
             for a in OPS_ACTIONS:
@@ -312,6 +312,9 @@ def run(ctx):
     ctx.assumptions += [
         "strings are abstracted to runs over 11 character classes; the concretisation table in harness/c15_baggage.cc "
         "(seeded real characters per class, real sizes) is trusted; class homogeneity is sampled, not proved",
+        "related keys: the history menu holds a / ab / aa (prefix, same length differing in the last character; equal up to "
+        "case in every third concretisation) and two thirds of the recorded histories' keys are derived from earlier keys; "
+        "GetValue is also probed with prefixes / extensions / case variants that are not keys",
         "don't-care bands (the statement is silent): position of the entry after Set (Set/Delete results compared as sets; "
         "the round trip must reproduce the order the object itself reports); Set with an empty / non-printable argument; "
         "members with unescaped non-token characters, a literal '+', or '=' inside the value (wildcard: zero or one valid entry); "
